@@ -18,6 +18,7 @@ use mio_extras::channel::sync_channel as mio_sync_channel;
 use mio_extras::channel::Receiver as MioReceiver;
 use snafu::ResultExt;
 use std::collections::hash_map::HashMap;
+use std::collections::{HashSet, VecDeque};
 use std::io;
 use std::sync::mpsc::TryRecvError;
 use std::thread::{Builder, JoinHandle};
@@ -660,7 +661,7 @@ impl IoLoop {
             Token(n) if n <= u16::max_value() as usize => {
                 // (read after the batch, in turns with the other channels that have
                 // something: see drain_ready_channels)
-                self.inner.ready_channels.push(n as u16)
+                self.inner.channel_is_ready(n as u16)
             }
             _ => unreachable!(),
         }
@@ -779,10 +780,17 @@ impl IoLoop {
                 },
                 None => None,
             };
+            // (channels that are known to have more for us get their next turn right after
+            // whatever else has come up meanwhile)
+            let poll_timeout = if self.inner.channels_are_waiting() {
+                Some(Duration::from_millis(0))
+            } else {
+                poll_timeout
+            };
             self.poll
                 .poll(&mut events, poll_timeout)
                 .context(FailedToPollSnafu)?;
-            if events.is_empty() {
+            if events.is_empty() && !self.inner.channels_are_waiting() {
                 continue;
             }
 
@@ -818,16 +826,7 @@ impl IoLoop {
                 debug!("returned below low water mark for buffered writes; resuming channels",);
                 self.inner.reregister_nonzero_channels(&self.poll)?;
                 listening_to_channels = true;
-            } else if listening_to_channels && self.inner.left_channel_undrained {
-                // A channel was left with messages in it at the high water mark, and we
-                // are below the mark again already (data was written later in the same
-                // pass): nothing would tell us about those messages. Reregistering
-                // reports every channel that has some.
-                self.inner.reregister_nonzero_channels(&self.poll)?;
             }
-            // (in the other cases the channels are not listened to now, and are
-            // reregistered when they are again)
-            self.inner.left_channel_undrained = false;
 
             // If we have data to write, reregister for readable|writable. This may be a
             // spurious reregistration, but also may not - if we wrote all the data we have
@@ -898,12 +897,12 @@ struct Inner {
     // channels (see run_io_loop, which stops listening to them at the same mark).
     buffered_writes_high_water: usize,
 
-    // Set when a non-0 channel was left with messages in it because of that. Its
-    // edge-triggered registration will not tell us about them again by itself.
-    left_channel_undrained: bool,
-
-    // The non-0 channels that reported messages in the current batch of events.
-    ready_channels: Vec<u16>,
+    // The non-0 channels that have reported messages and have not been found empty since,
+    // in the order in which they get their turns. (Their edge-triggered registrations
+    // will not tell us about those messages again, so they stay in here until they are
+    // found empty, from one pass of the loop to the next.)
+    ready_channels: VecDeque<u16>,
+    ready_channel_ids: HashSet<u16>,
 }
 
 impl Inner {
@@ -919,8 +918,8 @@ impl Inner {
             mio_channel_bound,
             channels_are_registered: true,
             buffered_writes_high_water,
-            left_channel_undrained: false,
-            ready_channels: Vec::new(),
+            ready_channels: VecDeque::new(),
+            ready_channel_ids: HashSet::new(),
         }
     }
 
@@ -987,6 +986,14 @@ impl Inner {
             .context(RegisterWithPollHandleSnafu)?;
         }
         self.channels_are_registered = true;
+        // Every channel may have been handed something while we were not listening. The
+        // registrations report those that have, but only so many per poll, and in an
+        // order of their own; so that none is passed over time and again, all of them
+        // simply get their turn (the empty ones drop out at once).
+        let ids: Vec<u16> = self.chan_slots.iter().map(|(id, _)| *id).collect();
+        for id in ids {
+            self.channel_is_ready(id);
+        }
         Ok(())
     }
 
@@ -1032,28 +1039,48 @@ impl Inner {
         }
     }
 
-    // Takes the messages of the channels that reported some, one message from each in
-    // turn, until they are empty or the high water mark is reached.
+    fn channel_is_ready(&mut self, channel_id: u16) {
+        if self.ready_channel_ids.insert(channel_id) {
+            self.ready_channels.push_back(channel_id);
+        }
+    }
+
+    // True if there are channels we know to have messages for us and may take them from.
+    fn channels_are_waiting(&self) -> bool {
+        self.channels_are_registered && !self.ready_channels.is_empty()
+    }
+
+    // Takes messages from the channels that have reported some, one message from each in
+    // turn, for as many rounds as a channel's queue holds messages or until the high water
+    // mark is reached. Channels that still have something keep their place in the queue
+    // for the next pass.
     //
-    // The mark: a publisher can hand us messages as fast as we take them; without a bound
+    // The bounds: publishers can hand us messages as fast as we take them; without a bound
     // we would never get back to the loop - never get to stop listening to the channels,
-    // to write, to look at the timers - while the data waiting to be written grows and
-    // grows. In turns: whichever channel comes first must not fill the buffer alone and
+    // to write, to read, to look at the timers - while the data waiting to be written
+    // grows and grows (a mark alone is not enough: a sealed buffer never reaches it). In
+    // turns, and from where the last pass stopped: whichever channels come first must not
     // keep the others out, pass after pass.
     fn drain_ready_channels(&mut self) -> Result<()> {
-        let mut ready = std::mem::replace(&mut self.ready_channels, Vec::new());
-        while !ready.is_empty() {
-            let mut i = 0;
-            while i < ready.len() {
-                if self.outbuf.len() > self.buffered_writes_high_water {
-                    self.left_channel_undrained = true;
-                    return Ok(());
-                }
-                let message = match self.chan_slots.get(ready[i]) {
-                    // We've been asked to poll a receiver for a channel we dropped; this
-                    // is rare, but could happen if (e.g.) the server initiated a Close in
-                    // this same batch and we already saw it. The dropped channel will
-                    // propagate an appropriate message back out to the channel handle.
+        if !self.channels_are_registered {
+            // (back-pressure is on; we get here again when the channels are listened to)
+            return Ok(());
+        }
+        for _ in 0..usize::max(self.mio_channel_bound, 1) {
+            // (looked at once per round: every channel in the queue gets its turn)
+            if self.outbuf.len() > self.buffered_writes_high_water {
+                break;
+            }
+            for _ in 0..self.ready_channels.len() {
+                let channel_id = match self.ready_channels.pop_front() {
+                    Some(channel_id) => channel_id,
+                    None => break,
+                };
+                let message = match self.chan_slots.get(channel_id) {
+                    // We've been told about messages of a channel we dropped; this is
+                    // rare, but could happen if (e.g.) the server initiated a Close and we
+                    // already saw it. The dropped channel will propagate an appropriate
+                    // message back out to the channel handle.
                     None => None,
                     Some(slot) => match slot.rx.try_recv() {
                         Ok(message) => Some(message),
@@ -1065,13 +1092,16 @@ impl Inner {
                 };
                 match message {
                     Some(message) => {
-                        self.process_channel_message(ready[i], message)?;
-                        i += 1;
+                        self.ready_channels.push_back(channel_id);
+                        self.process_channel_message(channel_id, message)?;
                     }
                     None => {
-                        ready.swap_remove(i);
+                        self.ready_channel_ids.remove(&channel_id);
                     }
                 }
+            }
+            if self.ready_channels.is_empty() {
+                break;
             }
         }
         Ok(())
